@@ -108,6 +108,11 @@ _wire("C02", 40, 900,
       "each run registers 2-4 nodes (optionally under shared node IDs; storage with or without NodeIdLoader; optional application base TLS config) and plays a history of 4-14 operations: operator removes / re-registers a node, clock jumps with root rotation (3/8/15 days), honest protocol.Dial connections, and adversarial TLS clients drawn from {own leaf, stolen leaf without the key, leaf from a foreign CA, self-signed, server-auth leaf minted by the real roots for a victim's key} x {nonce signed by the presented key, (nonce,signature) replayed from an observed honest ClientHello, forged, missing} x skip_verification x common_name x node-ID hint {absent, own, foreign, unknown} x client state {none, signed, forged, unsigned} x certificate preference {valid, garbage, absent} x one-byte mutation of the base64 ALPN payload. Non-trivial: every adversarial or post-removal connection; distinct by the tuple of these choices and the model verdict.",
       ["reference model: an authenticated connection requires possession of the presented leaf's key, a chain to a root that is current or next in server storage and valid now, and a stored record (of the presented leaf's actual public key, or under the named node ID when storage is a NodeIdLoader) whose key verifies the nonce signature actually sent",
        "on the node-ID path the statement does not bind the peer's key to the verifying record (observation S12 in DESIGN.md): not judged"])
+_wire("C16", 35, 900,
+      "each run enrolls one node and makes 2-6 connections through the real protocol.Dial: client state in {absent, empty struct, flat, nested with lists/unicode/null, medium 1-12 KB} x extra ALPN lists in {none, one, duplicates, 2-8 entries} drawn from near-misses of the library prefixes (other case, truncated, preceded by a byte, reserved split-listener names, non-ASCII); a quarter of the connections are adversarial: a registered key holder sending client state that is unsigned, forged or signed by another key, with and without skip_verification. Non-trivial: all; distinct by (state kind, number/class of extras) and adversary kind.",
+      ["the ALPN list is taken from the ClientHello bytes captured by simnet (own TLS record/ClientHello parser)",
+       "an empty Struct marshals to zero bytes and is treated as 'no state'",
+       "client states that need 100 or more ALPN chunks are exercised by C07 (honest configurations), not here"])
 
 HOOK_COMMITS = ["54f90f1 (H2: net/splitlistener.go scheduling points + net/verif_hook_{on,off}.go)",
                 "c914c74 (H1: protocol/dialer.go SimDial seam + protocol/verif_hook_{on,off}.go)"]
@@ -118,6 +123,7 @@ NOT_APPLICABLE["C20"] = ("pure function of its arguments (BreakIntoNextProtos/Co
                          "its failure modes are reached by the simulated workloads of C14 (malformed entries in a hostile ClientHello) and C07/C16 (honest payloads needing >99 chunks)")
 
 LEVEL_TEXT = {
+    "C16": "seeded simulation of honest dials with varied client state and ALPN extras against the real listener; the application-visible metadata is compared with what the node supplied and with the ClientHello captured on the simulated wire; adversarial unsigned/forged state must never reach the application.",
     "C02": "seeded simulation of honest and adversarial TLS peers against the real listener across register/remove/rotate histories; every authenticated connection is judged by a reference model recomputed from server storage and from what was actually sent.",
     "C14": "seeded simulation of hostile peers against the real listener: every Accept iteration runs under recover (a panic is a violation), every error for a hostile connection must be Temporary, a subsequent honest node must connect, non-temporary errors only after the base listener is closed or fails.",
     "C09": "seeded discrete-event simulation of rotation/re-enrollment histories over simulated years with cadences up to and including the stated bounds; invariants (never reset, roots stay trusted until the successor is valid, every node holds a valid trusted chain, ClientConfigs agrees) at probe instants around every event.",
